@@ -883,6 +883,41 @@ func runC08(c *Ctx) {
 						}
 					}
 				}
+				// … or the result of a tick helper: a function that bumps the clock by one and returns the
+				// clock as it stands after the bump (now := c.tick())
+				if call, ok := st.Val.(*ssa.Call); ok && !okL {
+					if cal := origin(staticCallee(&call.Call)); cal != nil && cal.Blocks != nil {
+						var tick *ssa.Store
+						allInstrs(cal, func(in2 ssa.Instruction) {
+							if st2, ok := in2.(*ssa.Store); ok {
+								if fa2, ok := st2.Addr.(*ssa.FieldAddr); ok {
+									if _, f2 := fieldVarOf(fa2); sameField(f2, clockF) {
+										tick = st2
+									}
+								}
+							}
+						})
+						retOK, nRet := tick != nil, 0
+						allInstrs(cal, func(in2 ssa.Instruction) {
+							ret, ok := in2.(*ssa.Return)
+							if !ok || len(ret.Results) != 1 || tick == nil {
+								return
+							}
+							nRet++
+							r := ret.Results[0]
+							if r == tick.Val {
+								return // the incremented value itself
+							}
+							if ld, ok := r.(*ssa.UnOp); ok && isLoad(ld, clockF) && dominatesInstr(tick, ld) {
+								return
+							}
+							retOK = false
+						})
+						if retOK && nRet > 0 {
+							okL = true
+						}
+					}
+				}
 				c.judge(okL, "R-CLOCK", name+":lastAccess", st.Pos(), "stamped with the clock value just ticked", "lastAccess is stamped with a value other than a freshly ticked clock: two uses can share a timestamp or a use can look older than it is")
 			}
 		})
